@@ -23,6 +23,7 @@ LPA = "latest_per_author"
 
 EXPLANATION += ' (R11, round 9) = C02.R3: the byte primitives behind the bounds of the head scans.'
 EXPLANATION += ' (R12, round 10) = the prune-predicate rows of C02.R1 (an entry removed behind the back of the head bookkeeping leaves a head nobody holds).'
+EXPLANATION += ' (R13, round 12) = C16.R15: no per-document memo (e.g. of heads) in the store outlives the document.'
 
 
 def r1(ctx):
@@ -467,6 +468,13 @@ def r12(ctx):
     from . import C02
     ctx.share("C13.R12", C02.r1, "C02.R1", keep=lambda k: "predicate-decides" in k or "prune-predicate" in k, floor=2)
 
+def r13(ctx):
+    """"the greatest timestamp among that author's entries currently in the replica": the heads a report is compared with are read from
+    the table on every call - no per-document memo in the store outlives the document (C16.R15)"""
+    from . import C16
+    C16.mem_state(ctx, "C13.R13")
+    ctx.floor("C13.R13", 2)
+
 def run(ctx):
     ctx.run_rule("C13.R1", r1)
     ctx.run_rule("C13.R2", r2)
@@ -480,3 +488,4 @@ def run(ctx):
     ctx.run_rule("C13.R10", r10)
     ctx.run_rule("C13.R11", r11)
     ctx.run_rule("C13.R12", r12)
+    ctx.run_rule("C13.R13", r13)
